@@ -15,9 +15,9 @@ Init == /\ done = FALSE
              /\ cfg = [tool |-> t, flags |-> Opt(nsc, "-nosmimecap") \o Opt(nd, "-nodetach") \o Opt(nc, "-nocerts") \o Opt(ca, "-cades"),
                        key |-> k[1], issuer |-> k[2], serial |-> k[3], size |-> z, shape |-> sh]
 (* the shape of the RSA signature value itself: whatever comes out, or one that begins with a zero octet (one in 256 does), made with a key whose *)
-(* modulus has an odd number of octets (2040 bits) or an even one; and a signer certificate with serial number 0                                *)
+(* modulus has an odd number of octets (2040 bits), a bit length that is no multiple of 8 (2047 bits) or an even number of octets; and a signer certificate with serial number 0                                *)
 SigInit == /\ done = FALSE
-           /\ \E t \in {"smime", "cms"}, nd \in BOOLEAN, k \in {<<"k2040", "i1", "s1", "any">>, <<"k2040", "i1", "s1", "leadzero">>, <<"k1", "i2", "zero", "any">>, <<"k1", "i2", "s2", "leadzero">>,
+           /\ \E t \in {"smime", "cms"}, nd \in BOOLEAN, k \in {<<"k2047", "i1", "s1", "any">>, <<"k2040", "i1", "s1", "any">>, <<"k2040", "i1", "s1", "leadzero">>, <<"k1", "i2", "zero", "any">>, <<"k1", "i2", "s2", "leadzero">>,
                                                                    <<"k1", "i1", "s1", "trailzero">>} :
                 /\ (k[4] = "trailzero" => nd /\ t = "cms")      \* (the attached content is sized so that the whole SignedData is a multiple of 8 long)
                 /\ cfg = [tool |-> t, flags |-> Opt(TRUE, "-nosmimecap") \o Opt(nd, "-nodetach"), key |-> k[1], issuer |-> k[2], serial |-> k[3],
